@@ -21,7 +21,7 @@ use crate::util::*;
 pub const CAPS: &[usize] = &[
     0, 1, 2, 3, 4, 5, 6, 7, 8, 9, 10, 11, 12, 13, 14, 15, 16, 17, 18, 19, 20, 21, 22, 23, 24, 25, 26,
     27, 28, 29, 30, 31, 32, 33, 34, 35, 36, 37, 38, 39, 40, 41, 42, 43, 44, 45, 46, 47, 48, 64, 96, 128,
-    256, 1024, 8191, 8192, 8193,
+    256, 1024, 8191, 8192, 8193, 65535, 65536, 65537, 70000,
 ];
 
 /// `with_cap!(cap, B, mk => body)`: evaluates `body` with the type alias `B` bound to `Vec<u8>` or
@@ -37,7 +37,7 @@ macro_rules! with_cap {
             }
             Some(n) => with_cap!(@arms n, $B, $mk, $body,
                 0 1 2 3 4 5 6 7 8 9 10 11 12 13 14 15 16 17 18 19 20 21 22 23 24 25 26 27 28 29 30 31 32
-                33 34 35 36 37 38 39 40 41 42 43 44 45 46 47 48 64 96 128 256 1024 8191 8192 8193),
+                33 34 35 36 37 38 39 40 41 42 43 44 45 46 47 48 64 96 128 256 1024 8191 8192 8193 65535 65536 65537 70000),
         }
     };
     (@arms $n:expr, $B:ident, $mk:ident, $body:expr, $($k:literal)*) => {
@@ -345,14 +345,27 @@ fn do_enci(args: &[&str]) -> Option<String> {
     let mut out = Vec::new();
     let fuel = 2 * p.len() + 64;
     let mut n = 0;
+    let mut hints: Vec<(usize, Option<usize>)> = Vec::new();
     loop {
         if n >= fuel {
             return Some("nonterminating".to_string());
         }
         n += 1;
+        if n <= 64 || n % 97 == 0 {
+            hints.push(it.size_hint());
+        } else {
+            hints.push((0, None));
+        }
         match it.next() {
             Some(b) => out.push(b),
             None => break,
+        }
+    }
+    // Iterator::size_hint contract: lower bound ≤ number of remaining items ≤ upper bound
+    for (k, (lo, hi)) in hints.iter().enumerate() {
+        let remaining = out.len() - k.min(out.len());
+        if *lo > remaining || hi.map(|h| h < remaining).unwrap_or(false) {
+            return Some(format!("MISMATCH size_hint ({},{:?}) with {} items remaining", lo, hi, remaining));
         }
     }
     let mut t = String::new();
@@ -363,6 +376,24 @@ fn do_enci(args: &[&str]) -> Option<String> {
         });
     }
     Some(format!("{} {}", hex_or_dash(&out), if t.is_empty() { "-".to_string() } else { t }))
+}
+
+fn do_encinf(args: &[&str]) -> Option<String> {
+    let b = unhex(args.first()?)?;
+    if b.len() != 1 {
+        return None;
+    }
+    let n: usize = args.get(1)?.parse().ok()?;
+    // unbounded sources: `repeat` (lower size hint usize::MAX), via collect (uses size_hint) and via next
+    let v: Vec<u8> = encode_streaming(core::iter::repeat(b[0])).take(n).collect();
+    let mut it = encode_streaming(core::iter::repeat(b[0]).take(usize::MAX));
+    let _ = it.size_hint();
+    let w: Vec<u8> = (0..n).filter_map(|_| it.next()).collect();
+    let _ = it.size_hint();
+    if v != w {
+        return Some(format!("MISMATCH collect=[{}] next=[{}]", hex(&v), hex(&w)));
+    }
+    Some(hex_or_dash(&v))
 }
 
 fn dec_generic<B: Buffer>(ops: &[&str]) -> String {
@@ -381,6 +412,29 @@ fn dec_generic<B: Buffer>(ops: &[&str]) -> String {
                         return join_sp(evs);
                     }
                 }
+            }
+            "N" => {
+                d = Decoder::new();
+                evs.push(format!("{}:N", idx));
+            }
+            t if t.starts_with('B') => {
+                // `Decoder::from_buf` with a buffer that already holds bytes
+                let bs = match untok(&t[1..]) {
+                    Some(b) => b,
+                    None => return "bad-request".to_string(),
+                };
+                let mut b: B = Default::default();
+                if b.extend_from_slice(&bs).is_err() {
+                    return "bad-request".to_string();
+                }
+                match catch_unwind(AssertUnwindSafe(|| Decoder::from_buf(b))) {
+                    Ok(nd) => d = nd,
+                    Err(_) => {
+                        evs.push(format!("{}:panic", idx));
+                        return join_sp(evs);
+                    }
+                }
+                evs.push(format!("{}:B", idx));
             }
             "R" => {
                 let r = catch_unwind(AssertUnwindSafe(|| d.reset()));
@@ -741,7 +795,7 @@ fn do_abuf(args: &[&str]) -> Option<String> {
             }
         };
     }
-    Some(arms!(0 1 2 3 4 5 6 7 8 9 10 11 12 13 14 15 16 24 32 48 64))
+    Some(arms!(0 1 2 3 4 5 6 7 8 9 10 11 12 13 14 15 16 24 32 48 64 255 256 257 65535 65536 65537 70000))
 }
 
 fn do_parse(args: &[&str]) -> Option<String> {
@@ -850,6 +904,7 @@ pub fn run(line: &str) -> ImplOut {
     let r = catch_unwind(AssertUnwindSafe(|| match op {
         "enc" => do_enc(args),
         "enci" => do_enci(args),
+        "encinf" => do_encinf(args),
         "dec" => do_dec(args),
         "decode" => do_decode(args),
         "iter" => do_iter(args),
